@@ -110,7 +110,12 @@ func writeIfChanged(path string, data []byte) error {
 	if err := os.MkdirAll(filepath.Dir(path), 0755); err != nil {
 		return err
 	}
-	return os.WriteFile(path, data, 0644)
+	// atomically: a concurrent check's compiler never sees a half-written file
+	tmp := fmt.Sprintf("%s.tmp%d", path, os.Getpid())
+	if err := os.WriteFile(tmp, data, 0644); err != nil {
+		return err
+	}
+	return os.Rename(tmp, path)
 }
 
 // rewriteTimeNow replaces, textually and at AST-determined positions, every
